@@ -1,6 +1,6 @@
 #!/bin/bash
 # run_all.sh [tier] : every registered check on /repo's current tree, one after another; summary at the end
-cd /verif
+cd "$(dirname "$0")"
 T=${1:-quick}
 for p in $(python3 -c "import json;print(' '.join(c['property_id'] for c in json.load(open('MANIFEST.json'))['checks']))"); do
   ./check $p --tier $T > /tmp/run_all_$p.log 2>&1; echo "$p exit=$? $(tail -1 /tmp/run_all_$p.log | cut -c1-200)"
